@@ -518,6 +518,20 @@ struct BufSys {
                 Str r(b.rbegin(), b.rend());
                 if (r != Str(v.rbegin(), v.rend())) fail("reverse-iterators", "rbegin()..rend() wrong");
                 if (b.to_std_string() != v) fail("to_std_string", "to_std_string() wrong");
+                {
+                    // the non-const accessors of the same (live) object; nothing is written through them
+                    B &mb = *slots[s].obj();
+                    n_reads += 8;
+                    if (!v.empty() && (mb[0] != v[0] || mb.at(v.size() - 1) != v.back() || mb.front() != v.front() || mb.back() != v.back()))
+                        fail("non-const-accessors", "operator[] / at() / front() / back() of the non-const object wrong");
+                    if (Str(mb.begin(), mb.end()) != v) fail("non-const-iterators", "begin()..end() of the non-const object wrong");
+                    if (Str(mb.rbegin(), mb.rend()) != Str(v.rbegin(), v.rend()) || Str(b.crbegin(), b.crend()) != Str(v.rbegin(), v.rend()))
+                        fail("reverse-iterators", "rbegin()..rend() / crbegin()..crend() wrong");
+                    if (mb.data() != b.data() || mb.c_str() != b.c_str()) fail("data-pointers", "data() of the const and the non-const object differ");
+                    if (b.empty() != v.empty() || (b == ST::null) != v.empty() || (b != ST::null) == v.empty() || (ST::null == b) != v.empty() ||
+                        (ST::null != b) == v.empty())
+                        fail("empty", "empty() / comparison with ST::null wrong");
+                }
                 if (Str(b.view()) != v) fail("view", "view() wrong");
                 if (v.size() >= 2 && Str(b.view(1, v.size() - 2)) != v.substr(1, v.size() - 2)) fail("view-range", "view(1,n-2) wrong");
                 const size_t zpos = v.find(T());  // first zero unit of the content (zero-filled values have one)
